@@ -93,6 +93,15 @@ Definition compute_all_ok (f : filt) : bool :=
 Lemma compute_all_all : forallb compute_all_ok looped_filters = true.
 Proof. vm_compute. reflexivity. Qed.
 
+(* the configuration part of __init__ (everything but the _compute_all run) touches no global mutable state: no module-level
+   cache/list/dict that some function mutates or leaks, no generator, no mutable default -- so what one instance is configured
+   with cannot depend on which instances were created before it *)
+Definition init_ok (f : filt) : bool :=
+  forallb (fun a => match a with AGl _ => false | _ => true end)
+          (foot (filter (fun kv => negb (String.eqb (fst kv) "_compute_all")) (fmethods f)) FUEL (Call "__init__")).
+Lemma init_all : forallb init_ok all_filters = true.
+Proof. vm_compute. reflexivity. Qed.
+
 (* a concrete machine: the batch loop really runs and returns the streamed rows *)
 Example batch_runs :
   fst (batch 0 0 (fun (h q x : nat) => (q + x + h, S h)) 5 100 [7; 1; 2; 3]) = [100; 106; 114; 124].
